@@ -3,7 +3,7 @@
    with the reference dictionary, and literals are accepted iff strictly increasing.
    Hypotheses: [eqb] decides equality of keys and [ltb] is a strict total order (for the
    comparable Michelson types this is Compare_proofs). *)
-From Coq Require Import List Bool Arith Sorted Lia.
+From Coq Require Import List Bool Arith Sorted Lia ZArith.
 From PV Require Import Base.Bytes Base.Result Michelson.Collections.
 Import ListNotations.
 
@@ -551,4 +551,49 @@ Section CollProofs.
           -- injection H as -> -> ->. left. destruct D as [->|D]; [apply ltb_irrefl | apply lt_asym, D].
           -- injection H as -> H. right. apply IH. exists p, a, b, q. split; assumption.
   Qed.
+
+  (* ------------------------------------------------------------ instruction-level scripts *)
+
+  Lemma set_instr_state s i :
+    fst (set_instr_step eqb ltb s i) =
+    match set_instr_op i with Some o => set_step eqb ltb s o | None => s end.
+  Proof.
+    destruct i; simpl; try reflexivity.
+    destruct (set_literal eqb ltb l); reflexivity.
+  Qed.
+
+  (* the (state, observation) pair recorded for the instruction after prefix [p] is the step taken
+     from the state the history of [p] leads to *)
+  Lemma set_script_nth p : forall s i q,
+    nth_error (set_script eqb ltb s (p ++ i :: q)) (length p)
+    = Some (set_instr_step eqb ltb (fold_left (set_step eqb ltb) (ops_of (@set_instr_op K) p) s) i).
+  Proof.
+    induction p as [|j p IH]; intros s i q; simpl; [reflexivity|].
+    rewrite IH. rewrite set_instr_state. destruct (set_instr_op j); reflexivity.
+  Qed.
+
+  Lemma map_instr_state (m : list (K * Z)) i :
+    fst (map_instr_step eqb ltb m i) =
+    match map_instr_op i with Some o => map_step eqb ltb m o | None => m end.
+  Proof.
+    destruct i; simpl; try reflexivity.
+    - destruct (map_map eqb ltb (fun _ v => (v + c)%Z) m); reflexivity.
+    - destruct (map_map eqb ltb (fun _ _ => c) m); reflexivity.
+    - destruct (map_literal eqb ltb l); reflexivity.
+  Qed.
+
+  Lemma map_script_nth p : forall (m : list (K * Z)) i q,
+    nth_error (map_script eqb ltb m (p ++ i :: q)) (length p)
+    = Some (map_instr_step eqb ltb (fold_left (map_step eqb ltb) (ops_of (@map_instr_op K) p) m) i).
+  Proof.
+    induction p as [|j p IH]; intros m i q; simpl; [reflexivity|].
+    rewrite IH. rewrite map_instr_state. destruct (map_instr_op j); reflexivity.
+  Qed.
 End CollProofs.
+
+(* the hypotheses in one word *)
+Definition key_order {K} (eqb ltb : K -> K -> bool) : Prop :=
+  (forall a b, eqb a b = true <-> a = b) /\
+  (forall a, ltb a a = false) /\
+  (forall a b c, ltb a b = true -> ltb b c = true -> ltb a c = true) /\
+  (forall a b, a = b \/ ltb a b = true \/ ltb b a = true).
